@@ -58,9 +58,11 @@ def canon(r):
         return ["empty", list(r.batch_size)]
     if hasattr(r, "batch_size") and hasattr(r, "keys"):
         out = ["td", list(r.batch_size)]
-        for k in G.keyset(r):
-            v = G.get_leaf(r, k)
-            out.append([k, list(v.shape), v.reshape(-1).tolist()])
+        def name(k):
+            return ".".join(k) if isinstance(k, tuple) else k
+        for k in sorted(r.keys(True, True), key=name):   # real keys: a flattened key "n.c" is not ("n", "c")
+            v = r.get(k)
+            out.append([name(k), list(v.shape), v.reshape(-1).tolist()])
         return out
     if isinstance(r, (bool, int, float)) or r is None:
         return ["v", r]
@@ -71,7 +73,7 @@ def run_both(f, L, D):
     res = []
     for x in (L, D):
         try:
-            with time_limit(20):
+            with time_limit(180):
                 res.append(("ok", canon(f(x))))
         except TimeoutError:
             raise
@@ -481,7 +483,7 @@ def mut_ops_stream(run, n_cases):
             _, kind, pos = f
             new = mk_members(bs, 1, base=4000)[0]
             try:
-                with time_limit(20):
+                with time_limit(180):
                     if kind == "append":
                         L.append(new)
                         order = ms + [new]
@@ -510,7 +512,7 @@ def mut_ops_stream(run, n_cases):
         res = []
         for x in (L, D):
             try:
-                with time_limit(20):
+                with time_limit(180):
                     f(x)
                 res.append("ok")
             except TimeoutError:
@@ -646,18 +648,28 @@ def cat_stack_stream(run, n_cases):
             ops_m.append((tuple(bsj), nj))
         n0 = rng.randint(1, 3)
         Ls, Ds = [], []
+        mixed = rng.random() < 0.2      # operands stacked along different dims (same overall batch size)
         for j, (bsj, nj) in enumerate(ops_m):
             n = nj if nj is not None else n0
+            sdj = sd
+            if mixed and j > 0:
+                fullj = list(bsj)
+                fullj.insert(sd, n)
+                sdj = rng.randrange(len(fullj))
+                n = fullj.pop(sdj)
+                bsj = tuple(fullj)
+            if n == 0:
+                n = 1
             ms = mk_members(bsj, n, base=10000 * j)
-            Ls.append(LazyStackedTensorDict(*ms, stack_dim=sd))
-            Ds.append(dense_of(ms, sd))
+            Ls.append(LazyStackedTensorDict(*ms, stack_dim=sdj))
+            Ds.append(dense_of(ms, sdj))
         tf = torch.cat if fn == "cat" else torch.stack
         out_kind = rng.choice(["none", "none", "lazy", "dense", "lazy_otherdim"])
         case = {"fn": fn, "bs": [list(b) for b, _ in ops_m], "n": [len(l.tensordicts) for l in Ls], "sd": sd, "dim": dim, "out": out_kind}
         run.case(("cs", str(case)))
-        run.count("cat_stack.kind", f"{fn}/out={out_kind}/{'on_sd' if dimn == sd else 'off_sd'}/{nops}ops")
+        run.count("cat_stack.kind", f"{fn}/out={out_kind}/{'on_sd' if dimn == sd else 'off_sd'}/{nops}ops" + ("/mixed_sd" if mixed else ""))
         try:
-            with time_limit(20):
+            with time_limit(180):
                 expect = tf([d.clone() for d in Ds], dim)
         except TimeoutError:
             raise
@@ -667,7 +679,7 @@ def cat_stack_stream(run, n_cases):
         got = None
         out_ms = None
         try:
-            with time_limit(20):
+            with time_limit(180):
                 if out_kind == "none":
                     got = tf(Ls, dim)
                 else:
@@ -768,7 +780,7 @@ def stack_of_stacks_stream(run, n_cases):
             res = []
             for x in (L, D):
                 try:
-                    with time_limit(20):
+                    with time_limit(180):
                         x[index] = v.clone()
                     res.append("ok")
                 except TimeoutError:
